@@ -59,7 +59,7 @@ def check_component(ctx, comp, ops):
     sameP = lambda ys, ws: len(ys) == len(ws) and all(same(a_, b_, comp.float_out) for a_, b_ in zip(ys, ws))
 
     def rec(rel, ok, **extra):
-        ops.append(Op("gray 0", "0", nontrivial=False, info={"site": site, "config": dict(comp.cfg, component=comp.name, relation=rel, **extra)}, prop_ok=bool(ok)))
+        ops.append(Op("gray 0", "0", nontrivial=(rel != "single"), info={"site": site, "config": dict(comp.cfg, component=comp.name, relation=rel, **extra)}, prop_ok=bool(ok)))
         ctx.count("rel_" + rel)
     # members alone (batch of one): singles[i] = list of parts
     singles = []
